@@ -1,5 +1,162 @@
-"""C16 - whole requests through the real KmipSession (filled in below)."""
+"""C16 - whole requests through the real KmipSession: bytes in, bytes out, with a real engine behind it.
+
+The request is encoded by the real message classes (for a version the codec does not know, with the 1.0 layout and
+the foreign version in the header), handed to KmipSession._handle_message_loop over a fake connection that carries a
+generated client certificate, and the answer is decoded again.  Observed: the version in the response header, the
+result reason of an error answer, the class (entered / refused by version / unknown operation) of every batch item.
+"""
+import datetime
+import re
+
+import kdrv
+from kmip.core import enums, utils
+from kmip.core.messages import messages, contents
+from kmip.services.server import session as session_mod
+from vlib import coqprint as cp
+
+OP = enums.Operation
+R = enums.ResultReason
+
+
+def make_cert():
+    from cryptography import x509
+    from cryptography.x509.oid import NameOID, ExtendedKeyUsageOID
+    from cryptography.hazmat.primitives import hashes, serialization
+    from cryptography.hazmat.primitives.asymmetric import rsa
+    key = rsa.generate_private_key(public_exponent=65537, key_size=1024)
+    name = x509.Name([x509.NameAttribute(NameOID.COMMON_NAME, u'alice')])
+    now = datetime.datetime(2020, 1, 1)
+    cert = (x509.CertificateBuilder().subject_name(name).issuer_name(name).public_key(key.public_key())
+            .serial_number(1000).not_valid_before(now).not_valid_after(now + datetime.timedelta(days=36500))
+            .add_extension(x509.ExtendedKeyUsage([ExtendedKeyUsageOID.CLIENT_AUTH]), critical=False)
+            .sign(key, hashes.SHA256()))
+    return cert.public_bytes(serialization.Encoding.DER)
+
+
+class FakeConn:
+    def __init__(self, der, data):
+        self.der = der
+        self.inp = data
+        self.out = b''
+
+    def recv(self, n):
+        chunk, self.inp = self.inp[:n], self.inp[n:]
+        return chunk
+
+    def sendall(self, data):
+        self.out += bytes(data)
+
+    def getpeercert(self, binary_form=False):
+        return self.der
+
+    def cipher(self):
+        return ('ECDHE-RSA-AES256-GCM-SHA384', 'TLSv1.2', 256)
+
+    def shared_ciphers(self):
+        return None
+
+
+def kmip_version_of(v):
+    return contents.protocol_version_to_kmip_version(contents.ProtocolVersion(*v))
+
+
+def gclass(bi):
+    if bi.result_reason is not None and bi.result_reason.value == R.OPERATION_NOT_SUPPORTED:
+        msg = bi.result_message.value if bi.result_message is not None else ''
+        if re.match(r'^\w+ is not supported by KMIP ', msg):
+            return 'GVersion'
+        if msg.endswith(' operation is not supported by the server.'):
+            return 'GUnknown'
+    return 'GRun'
+
+
+def exchange(eng, der, v, items, **kw):
+    """-> (header version, [batch items]) decoded from what the session sent."""
+    req = eng.build(items, version=v, **kw)
+    kv = kmip_version_of(v) or enums.KMIPVersion.KMIP_1_0
+    s = utils.BytearrayStream()
+    req.write(s, kmip_version=kv)
+    conn = FakeConn(der, bytes(s.buffer))
+    import kmip.services.server.engine as engine_mod
+    engine_mod.time = eng.clock
+    sess = session_mod.KmipSession(eng.engine, conn, ('127.0.0.1', 5696), name='c16', enable_tls_client_auth=True, auth_settings=[])
+    sess._logger.disabled = True
+    sess._handle_message_loop()
+    resp = messages.ResponseMessage()
+    # decode with the version the answer announces (the library's own reader switches to the header's version)
+    resp.read(utils.BytearrayStream(conn.out), kmip_version=enums.KMIPVersion.KMIP_1_0)
+    hv = resp.response_header.protocol_version
+    return (hv.major, hv.minor), resp.batch_items, conn.out
+
+
+def cver(v):
+    return '(%s, %s)' % (cp.z(v[0]), cp.z(v[1]))
 
 
 def session_cases(ctx, cases, meta):
-    return
+    import c16
+    der = make_cert()
+    quick = ctx.tier == 'quick'
+    rng = ctx.subrng('session')
+    versions = c16.SUPPORTED + [v for v in c16.UNSUPPORTED if v[0] >= 0 and v[1] >= 0 and v[1] < 2 ** 31]
+    sc = c16.Scene(ctx)
+    eng = sc.eng
+    spy = c16.Spy(eng.engine, ['process_request', '_process_batch', '_process_operation'])
+    wire_ops = [OP.QUERY, OP.DISCOVER_VERSIONS, OP.GET, OP.GET_ATTRIBUTE_LIST, OP.LOCATE, OP.ENCRYPT, OP.ACTIVATE]
+    try:
+        for v in versions:
+            known = kmip_version_of(v) is not None
+            sets = [[o] for o in wire_ops] + [[OP.QUERY, OP.ENCRYPT, OP.GET], [OP.DISCOVER_VERSIONS, OP.QUERY]]
+            if not quick:
+                sets += [[rng.choice(wire_ops) for _ in range(rng.randrange(2, 5))] for _ in range(10)]
+            for ops in sets:
+                for extra, reject in (({}, None), ({'time_stamp': eng.clock.t + 1000}, 4)):
+                    if reject and ops != [OP.QUERY]:
+                        continue
+                    items = []
+                    for o in ops:
+                        p = sc.payload(o, v if known else (1, 0))
+                        items.append(p)
+                    before = eng.dump()
+                    del spy.calls[:]
+                    try:
+                        hv, bis, raw = exchange(eng, der, v, items, batch_option=enums.BatchErrorContinuationOption.CONTINUE, **extra)
+                    except Exception as e:     # noqa - an answer the library cannot decode is a finding of its own kind
+                        ctx.disagreement('c16', {'session exchange failed': repr(e)[:300], 'version': v, 'ops': [o.name for o in ops]})
+                        continue
+                    after = eng.dump()
+                    entered = list(spy.calls)
+                    whole_error = len(bis) == 1 and bis[0].operation is None
+                    if whole_error:
+                        err = bis[0].result_reason.value.value
+                        classes, flags = [], [False] * len(ops)
+                    else:
+                        err = None
+                        classes = [gclass(b) for b in bis]
+                        flags = [b.result_status.value == enums.ResultStatus.SUCCESS for b in bis] + [False] * (len(ops) - len(bis))
+                    cases.append('CSession %s %s %s false %s %s %s %s' % (
+                        cver(v), cp.boolean(known), cp.option(reject, cp.z),
+                        cp.lst(list(zip(ops, flags)), lambda p: '(%s, %s)' % (cp.z(p[0].value), cp.boolean(p[1]))),
+                        cver(hv), cp.option(err, cp.z), cp.lst(classes, str)))
+                    meta.append(('session', v, [o.name for o in ops], sorted(extra)))
+                    ctx.case_seen(('session', v, tuple(o.name for o in ops), tuple(sorted(extra))))
+                    ctx.count('session.%s' % ('supported' if v in c16.SUPPORTED else 'unsupported'))
+                    # direct oracle on the wire
+                    if v in c16.SUPPORTED:
+                        if hv != v:
+                            ctx.violation({'class': 'echo-wire', 'version': c16.vstr(v)},
+                                          {'version': v, 'operations': [o.name for o in ops], 'answer_version': hv, 'answer_hex': raw.hex()[:300]},
+                                          'the session answered a KMIP %s request in KMIP %s' % (c16.vstr(v), c16.vstr(hv)))
+                        for o, b in zip(ops, bis if not whole_error else []):
+                            if c16.SPEC_OP_MIN[o] > v and (b.result_reason is None or b.result_reason.value != R.OPERATION_NOT_SUPPORTED):
+                                ctx.violation({'class': 'op-gate', 'op': o.name, 'version': c16.vstr(v)}, {'version': v, 'operation': o.name, 'via': 'session'},
+                                              '%s accepted under KMIP %s through the session' % (o.name, c16.vstr(v)))
+                    else:
+                        touched = [c for c in entered if c != 'process_request']
+                        if err != R.INVALID_MESSAGE.value or before != after or touched:
+                            ctx.violation({'class': 'unsupported-version', 'version': c16.vstr(v)},
+                                          {'version': v, 'operations': [o.name for o in ops], 'via': 'session', 'error_reason': err,
+                                           'store_changed': before != after, 'engine_methods_entered': entered},
+                                          'request in unsupported KMIP %s was not refused with InvalidMessage by the session' % c16.vstr(v))
+    finally:
+        sc.close()
